@@ -185,16 +185,25 @@ class Check(PropertyCheck):
                   "…listeners_see_restored_state_partial (+ counterexample: a listener that also rejects the restored state "
                   "cuts the rollback notification short, F-C44c), accepted_update_notifies_assigned_names, "
                   "config_roundtrip_nondefault for any YAML with parse(dump d)=d (+ partial/counterexample for U+0085, F-C44b). "
+                  "Listeners that issue nested updates of other options from inside their handlers are modelled too (notifyW/"
+                  "coreUpdate/nestedAt, depth bound 2): typed_always_nested, nested_rejected_update_restores_everything (+_quiet: "
+                  "every assignment of the aborted transaction incl. nested ones is discarded), nested_model_agrees_with_flat. "
                   "Model tied to the real OptManager by differential runs of random histories (every reply: outcome, every "
                   "listener call with the values it saw, all option values, deferred names; save→load values).")
     level_note = ("trusted: Lean kernel; differential tie model↔optmanager.py on generated histories; YAML library is a parameter "
                   "of the round-trip theorem (its law is exercised on the real ruamel.yaml by the oracle; it fails for strings "
                   "containing U+0085 = F-C44b); int() of `set` specs modelled for [+-]?[0-9]+ only; tuples (accepted for "
                   "Sequence[str]) are not generated; weak-reference cleanup of subscribers not modelled. "
-                  "listeners_see_restored_state is PARTIAL: proved when the rollback notification is delivered completely.")
+                  "listeners_see_restored_state is PARTIAL: proved (flat listeners) when the rollback notification is delivered "
+                  "completely; the accepted/listener-view theorems are stated for listeners that only accept or reject — for "
+                  "listeners issuing nested updates the Lean theorems cover typedness and the restoration of all options, the "
+                  "listener-view clauses are checked by the direct oracle only (F-C44d recorded); nested depth bounded by 2 in "
+                  "model and harness listeners.")
     technique = "Lean 4 proof (induction over histories, invariants) + differential model-vs-code correspondence on a real OptManager"
     rule = ("histories of 3–16 operations over ≤6 options of the six types: declarations (some ill-typed / re-declared), "
-            "subscribers and changed-receivers with verdict rules (never/always/value==v/name updated), updates with typed, "
+            "subscribers and changed-receivers with verdict rules (never/always/value==v/name updated) and, for a third of them, "
+            "a reaction (on such a condition the handler itself calls opts.update on other options: nested, successful or rejected); "
+            "a quarter of the cases are cascade scenarios (deriving listener, later rejecting listener, watcher); updates with typed, "
             "ill-typed and unknown-name values from small pools (so that rules fire), set specs incl. deferred, "
             "process_deferred, reset, save→load with adversarial strings. distinct = distinct history; non-trivial = "
             "at least one update-family operation reached the type check.")
